@@ -148,6 +148,11 @@ class SubsetGroup(HubListener):
 
     def _add_data(self, data):
         # add a new data object to group
+        if any(s.data is data for s in self.subsets):
+            # The group was registered after the dataset was added but before
+            # the (delayed) message was delivered, so it already has a subset
+            # for this dataset.
+            return
         s = GroupedSubset(data, self)
         data.add_subset(s)
         self.subsets.append(s)
